@@ -6,6 +6,7 @@ mod rng;
 mod srv;
 mod srv_suite;
 mod translate;
+mod writer_suite;
 
 use std::collections::BTreeMap;
 use std::fmt::Write as _;
@@ -150,6 +151,13 @@ fn main() {
         out.runs,
         out.seg_dependent.len()
       ));
+      std::fs::write(&a.out, t).expect("write transcript");
+    },
+    "writer" => {
+      let (rt, local) = local_rt();
+      let (seed, cases) = (a.seed, a.cases);
+      let mut t = local.block_on(&rt, async move { writer_suite::run_suite(seed, cases).await });
+      t.push_str(&format!("stats {{\"suite\":\"writer\",\"seed\":{},\"cases\":{}}}\n", a.seed, a.cases));
       std::fs::write(&a.out, t).expect("write transcript");
     },
     "translate" => {
